@@ -24,7 +24,7 @@ import gtirb_rewriting
 ISA = gtirb.Module.ISA
 FF = gtirb.Module.FileFormat
 
-WHERES = ("leaf", "nonleaf", "nofunc")
+WHERES = ("leaf", "nonleaf", "nofunc", "tail")
 
 _X64_ALL = ["rax", "rbx", "rcx", "rdx", "rsi", "rdi", "r8", "r9", "r10", "r11", "r12", "r13", "r14", "r15"]
 
@@ -38,7 +38,7 @@ ABIS = {
         allocatable=_X64_ALL,
         rep_clobbers=["rax", "rcx", "rbx", "r11", "r15"], reads_pair=["rdx", "rsi"], reads_overlap=["rax"], reads_never=[],
         wide_clobbers=_X64_ALL,
-        ret=b"\xc3", call=(b"\xe8\0\0\0\0", 1),
+        ret=b"\xc3", call=(b"\xe8\0\0\0\0", 1), jmp=(b"\xe9\0\0\0\0", 1),
     ),
     "x64-pe": dict(
         isa=ISA.X64, ff=FF.PE, machine="x64", ptr=8, sp="rsp", stack_align=16, red_zone=0,
@@ -47,7 +47,7 @@ ABIS = {
         allocatable=_X64_ALL,
         rep_clobbers=["rax", "rcx", "rbx", "r11", "r15"], reads_pair=["rdx", "rsi"], reads_overlap=["rax"], reads_never=[],
         wide_clobbers=_X64_ALL,
-        ret=b"\xc3", call=(b"\xe8\0\0\0\0", 1),
+        ret=b"\xc3", call=(b"\xe8\0\0\0\0", 1), jmp=(b"\xe9\0\0\0\0", 1),
     ),
     "ia32-pe": dict(
         isa=ISA.IA32, ff=FF.PE, machine="ia32", ptr=4, sp="esp", stack_align=4, red_zone=0,
@@ -56,7 +56,7 @@ ABIS = {
         allocatable=["eax", "ebx", "ecx", "edx", "esi", "edi"],
         rep_clobbers=["eax", "ebx", "ecx", "edx", "esi", "edi"], reads_pair=["eax", "edx"], reads_overlap=[], reads_never=[],
         wide_clobbers=["eax", "ebx", "ecx", "edx", "esi", "edi"],
-        ret=b"\xc3", call=(b"\xe8\0\0\0\0", 1),
+        ret=b"\xc3", call=(b"\xe8\0\0\0\0", 1), jmp=(b"\xe9\0\0\0\0", 1),
     ),
     "arm64-elf": dict(
         isa=ISA.ARM64, ff=FF.ELF, machine="arm64", ptr=8, sp="sp", stack_align=16, red_zone=0,
@@ -71,7 +71,7 @@ ABIS = {
         allocatable=["x%d" % i for i in range(31) if i not in (16, 17, 18, 29, 30)],
         rep_clobbers=["x0", "x1", "x19", "x29", "x30"], reads_pair=["x2", "x3"], reads_overlap=["x0"], reads_never=["x29"],
         wide_clobbers=["x0", "x1", "x8", "x15", "x16", "x18", "x19", "x28", "x29", "x30"],
-        ret=bytes.fromhex("c0035fd6"), call=(bytes.fromhex("00000094"), 0),
+        ret=bytes.fromhex("c0035fd6"), call=(bytes.fromhex("00000094"), 0), jmp=(bytes.fromhex("00000014"), 0),
     ),
     "mips32-elf": dict(
         isa=ISA.MIPS32, ff=FF.ELF, machine="mips32", ptr=4, sp="sp", stack_align=8, red_zone=0,
@@ -84,7 +84,7 @@ ABIS = {
         allocatable=["t%d" % i for i in range(8)] + ["a0", "a1", "a2", "a3", "v0", "v1"] + ["s%d" % i for i in range(8)],
         rep_clobbers=["t0", "t8", "a0", "s0"], reads_pair=["t1", "t2"], reads_overlap=["t0"], reads_never=["a0"],
         wide_clobbers=["t0", "t7", "t8", "t9", "a0", "s0", "v0", "ra"],
-        ret=bytes.fromhex("03e00008") + b"\0\0\0\0", call=(bytes.fromhex("0c000000") + b"\0\0\0\0", 0),
+        ret=bytes.fromhex("03e00008") + b"\0\0\0\0", call=(bytes.fromhex("0c000000") + b"\0\0\0\0", 0), jmp=(bytes.fromhex("08000000") + b"\0\0\0\0", 0),
     ),
 }
 
@@ -131,6 +131,14 @@ class World:
         callblock = add_code_block(bi, code, {off: gtirb.SymAddrConst(0, self.callee_local)})
         add_edge(self.ir.cfg, callblock, callee_block, gtirb.Edge.Type.Call)
         add_edge(self.ir.cfg, callblock, self.blocks["nonleaf"][0], gtirb.Edge.Type.Fallthrough)
+        # function without any call that leaves through a jump to another function (sibling/tail call): it never pushes a
+        # return address, so as far as anyone can tell from the CFG it "may be a leaf"
+        bi = gtirb.ByteInterval(contents=b"", address=addr + 0x1000)
+        bi.section = self.text
+        jcode, joff = A["jmp"]
+        jmpblock = add_code_block(bi, jcode, {joff: gtirb.SymAddrConst(0, self.callee_local)})
+        add_edge(self.ir.cfg, jmpblock, callee_block, gtirb.Edge.Type.Branch)
+        add_function(m, "tail_fn", self.blocks["tail"][0], set(self.blocks["tail"][1:]) | {jmpblock})
         add_function(m, "leaf_fn", self.blocks["leaf"][0], set(self.blocks["leaf"][1:]))
         add_function(m, "nonleaf_fn", callblock, set(self.blocks["nonleaf"]))
         self.syms = {}
